@@ -15,7 +15,7 @@ func init() {
 		Meta: report.Meta{
 			Property: "C02",
 			Rule: "G1 typing: every unary and binary operator x every ordered pair of operands from {0,1,2,-3,0.5,NaN,+Inf,-Inf,true,false,\"\",\"a\",\"b\",$n,$b,$s,$unknown}; " +
-				"LIT: every number literal spelling of <=4 (quick) / 5 (thorough) digits over {0,1,7,8,9} (leading zeros) plus long digit strings around 2^31, 2^53, 2^63, 2^64 and beyond, each with 10 fraction spellings, alone, inside arithmetic and compared with its decimal value; G1-again: every operator on literal operands evaluated three times on one runner; G2 grouping: every expression tree with <=2 (quick) / <=3 (thorough, reduced operands) operators over all 14 binary and 2 unary operators, printed with minimal, full and redundant parentheses and every operator spelling; " +
+				"STR: every string literal of <=3 symbols over {a, space, é, 日, {, }, //, #, <<, >>, [, ], ', -, ->, ===} alone, concatenated and compared; LIT: every number literal spelling of <=4 (quick) / 5 (thorough) digits over {0,1,7,8,9} (leading zeros) plus long digit strings around 2^31, 2^53, 2^63, 2^64 and beyond, each with 10 fraction spellings, alone, inside arithmetic and compared with its decimal value; G1-again: every operator on literal operands evaluated three times on one runner; G2 grouping: every expression tree with <=2 (quick) / <=3 (thorough, reduced operands) operators over all 14 binary and 2 unary operators, printed with minimal, full and redundant parentheses and every operator spelling; " +
 				"G3 evaluation order: every operator and nested call shapes with probe functions (also failing ones) as operands; values are captured typed by a host function (<<call cap(expr)>>) and the probe log is compared with the reference evaluator; " +
 				"a case is one (expression, rendering); non-trivial = expression with at least one operator",
 			StatesMean:  "distinct (expression, rendering) cases; transitions = real Next calls",
@@ -352,6 +352,35 @@ func runC02(ctx *report.Ctx) {
 				e = yc.EBinary("==", lit, yc.ENumber(lit.N))
 			}
 			exprCase(ctx, c, "LIT", e, nil)
+		})
+	}
+
+	// STR: contents of string literals. Every string of <=3 symbols over {a, space, é, 日, {, }, //, #, <<, >>, [, ], ', -, ->, ===}
+	// as a literal: alone, concatenated and compared - the value is the characters between the quotes
+	{
+		syms := []string{"a", " ", "é", "日", "{", "}", "//", "#", "<<", ">>", "[", "]", "'", "-", "->", "==="}
+		part(ctx, "STR", -1, func(c *explore.Chooser) {
+			n := c.Choose(4, "len")
+			var str string
+			for i := 0; i < n; i++ {
+				str += syms[c.Choose(len(syms), "symbol")]
+				if i == 0 && !c.Mine() {
+					return
+				}
+			}
+			if n == 0 && !c.Mine() {
+				return
+			}
+			var e *yc.Expr
+			switch c.Choose(3, "shape") {
+			case 0:
+				e = yc.EString(str)
+			case 1:
+				e = yc.EBinary("+", yc.EString(str), yc.EBinary("+", yc.EString("|"), yc.EString(str)))
+			case 2:
+				e = yc.EBinary("==", yc.EString(str), yc.EBinary("+", yc.EString(""), yc.EString(str)))
+			}
+			exprCase(ctx, c, "STR", e, nil)
 		})
 	}
 
